@@ -161,11 +161,16 @@ BROKEN_TOML = [
     'version = 1\n[[annotations]]\npath = "a.txt"\nSPDX-License-Identifier = "MIT AND"\n',
     'version = 1\n[[annotations]]\npath = "a.txt"\nSPDX-License-Identifier = ["MIT", "(0BSD"]\n',
     'version = 1\n[[annotations]]\n"path" = "a.txt"\npath = "b.txt"\n',
+    'version = 1\n[[annotations]]\npath = "a.txt"\nSPDX-License-Identifier = "( )"\n',
+    'version = 1\n[[annotations]]\npath = "a.txt"\nSPDX-License-Identifier = ["MIT", "( OR MIT"]\n',
+    'version = 1\n[[annotations]]\npath = "a.txt"\nSPDX-License-Identifier = "( AND +"\n',
     '= 1\n',
     'version = 01\n',
     'version = 1\n[a.b]\nc = 1\n[a]\nb = 2\n',
     '\x00version = 1\n',
 ]
+
+BAD_EXPRESSIONS = ["MIT AND OR (", "( )", "( OR MIT", "( AND +", "( ) ) (", "MIT WITH", ")(", "MIT OR OR 0BSD", "( ( )", "()"]
 
 COMMANDS = ["lint", "lint-pool", "lint-file", "spdx", "annotate", "convert-dep5", "download-all"]
 
@@ -249,6 +254,8 @@ def generate(tier, seed):
         for how in ("named", "recursive"):
             cases.append({"kind": "batch", "n": n, "how": how})
     cases.append({"kind": "names", "k": 0})
+    for j in range(len(BAD_EXPRESSIONS)):
+        cases.append({"kind": "cli-expression", "j": j})
     for layout in range(4):
         cases.append({"kind": "conflict", "layout": layout})
     for k in range(200 if tier == "quick" else 6000):
@@ -354,6 +361,17 @@ def run_case(case, ctx):
             run_templates(case, ctx, res, root)
         elif kind == "values":
             run_values(case, ctx, res, root)
+        elif kind == "cli-expression":
+            # an unparseable expression on the command line is a usage error, in a dep5 a configuration error - never a traceback
+            bad = BAD_EXPRESSIONS[case["j"]]
+            r = run_cli(["--no-multiprocessing", "--root", str(root), "annotate", "-c", "J", "-l", bad, str(root / "a.txt")], cwd=str(root))
+            judge(res, r, "grey", f"--license {bad!r}", "annotate", allowed=(2,))
+            (root / ".reuse").mkdir()
+            (root / ".reuse" / "dep5").write_text(VALID_DEP5.split("\n\n")[0] + f"\n\nFiles: *\nCopyright: 2020 J\nLicense: {bad}\n")
+            for cmd in ("lint", "spdx", "lint-file", "convert-dep5"):
+                judge(res, run_command(cmd, root), "grey", f"dep5 License: {bad!r}", cmd, names=("dep5",))
+                res.sigs.add(short_hash("cli-expression", bad, cmd))
+            res.cell("cli-expression")
         elif kind == "names":
             # file *names* that are not UTF-8 (Latin-1 bytes from an old archive), ignored by Git
             k = case["k"]
@@ -496,7 +514,8 @@ def run_files(case, ctx, res, root):
     elif what == "only-cr":
         victim.write_bytes(b"# SPDX-License-Identifier: MIT\r# SPDX-FileCopyrightText: 2020 J\r")
     elif what == "unparseable-expression":
-        victim.write_text("# SPDX-License-Identifier: MIT AND OR (\n# SPDX-FileCopyrightText: 2020 J\n")
+        bad = ["MIT AND OR (", "( )", "( OR MIT", "( AND +", "( ) ) (", "MIT WITH", ")(", "MIT OR OR 0BSD", "+"][(case["k"] // len(HOSTILE_CONTENT)) % 9]
+        victim.write_text(f"# SPDX-License-Identifier: {bad}\n# SPDX-FileCopyrightText: 2020 J\n")
     elif what == "ignore-start-only":
         victim.write_text("REUSE-IgnoreStart\n# SPDX-License-Identifier: MIT\n")
     elif what == "nul-in-tag":
